@@ -180,9 +180,11 @@ def showSeen (d : Option (String × List Val)) (pre : String := "") : String :=
   | some (t, vs) => s!"sent=true seen=[{pre}{t} {showVals vs}] status=Running"
   | none => "sent=true seen=[] status=Running"
 
-def actorOracle (impl : String) : List String :=
-  if (impl.splitOn "status=Running").length == 2 && (impl.splitOn "sent=true").length == 2 then []
-  else ["actor-harmed"]
+def actorOracle (impl : String) (modelDelivers : Bool := true) : List String :=
+  (if (impl.splitOn "status=Running").length == 2 && (impl.splitOn "sent=true").length == 2 then []
+   else ["actor-harmed"]) ++
+  -- a payload that is not exactly an encoding of a message must never reach `handle`
+  (if !modelDelivers && (impl.splitOn "seen=[]").length != 2 then ["actor-handled-malformed-message"] else [])
 
 def showTtl : Option Nat → String
   | none => "none"
@@ -270,13 +272,20 @@ def step (st : St) (op impl : String) : St × StepOut :=
           | _ => base
       -- oracle: generated decoders never panic; what `serialize` produced decodes to the original
       let o1 := if impl == "panic" then ["decoder-panicked"] else []
+      -- `C19.unpack_accepts_exactly_packed`: whatever is accepted is exactly a packing of the
+      -- variant's data fields (for a data-less variant: the empty buffer) — no trailing bytes
+      let o3 := if impl.startsWith "ok " then
+          (match findVariant (variants st) (if kind == "call" then .call else .cast) tag with
+           | some v => if (unpack v.fields.length args).isSome then [] else ["decoder-accepted-trailing-bytes"]
+           | none => ["decoder-accepted-unknown-variant"])
+        else []
       let o2 := match st.lastSer with
         | some (ser, t, vals) =>
           if ser == s!"{kind} {tag} {h}" then
             (if (impl.startsWith s!"ok {t} {vals}") then [] else ["enum-roundtrip"])
           else []
         | none => []
-      ({ st with lastSer := none }, { model := m, oracle := o1 ++ o2, nontrivial := true })
+      ({ st with lastSer := none }, { model := m, oracle := o1 ++ o2 ++ o3, nontrivial := true })
     | none => (st, { model := "bad-op" })
   | ["const", "chunk"] => (st, { model := toString chunkSize })
   | ["const", "defaultmax"] => (st, { model := toString defaultMaxFrame })
@@ -361,7 +370,7 @@ def step (st : St) (op impl : String) : St × StepOut :=
         | "call" => .call tag args
         | _ => .callReply
       let d := deserialize (variants st) sm
-      (st, { model := showSeen d, oracle := actorOracle impl, nontrivial := d.isNone })
+      (st, { model := showSeen d, oracle := actorOracle impl d.isSome, nontrivial := d.isNone })
     | none => (st, { model := "bad-op" })
   | ["actor", "num", kind, h] =>
     match unhex? h with
